@@ -206,25 +206,39 @@ def replay_frames(out, tout, n, line, maxiter):
 
 
 def saves(out):
+    import meshio
     for name, mk in (("hex", lambda: fem.Cube(n=3)), ("quad", lambda: fem.Rectangle(n=4))):
-        rid = "save-" + name
-        if not out.want(rid):
-            continue
-        mesh = mk()
-        dim = mesh.points.shape[1]
-        region = (fem.RegionHexahedron if dim == 3 else fem.RegionQuad)(mesh)
-        field = fem.FieldContainer([fem.Field(region, dim=dim)])
-        rng = np.random.RandomState(11)
-        field[0].values[:] = rng.randint(-64, 65, size=field[0].values.shape) / 512.0
-        forces = rng.randint(-64, 65, size=field[0].values.size) / 256.0
-        solid = fem.SolidBody(fem.NeoHooke(mu=1.0, bulk=2.0), field) if dim == 3 else None
-        fn = "sv_%s.vtu" % name
-        fem.tools.save(region, field, forces=forces, gradient=solid.results.stress if False else None, filename=fn)
-        import meshio
-        m = meshio.read(fn)
-        out.write({"id": rid, "kind": "save", "nt": True, "uw": fhex(field[0].values), "ur": fhex(m.point_data["Displacements"]),
-                   "fw": fhex(forces), "fr": fhex(m.point_data["Reaction Force"])})
-        os.remove(fn)
+        for ext in ("vtu", "xdmf"):
+            for withgrad in (False, True):
+                rid = "save-%s-%s%s" % (name, ext, "-gradient" if withgrad else "")
+                if not out.want(rid) or (withgrad and name != "hex"):
+                    continue
+                mesh = mk()
+                dim = mesh.points.shape[1]
+                region = (fem.RegionHexahedron if dim == 3 else fem.RegionQuad)(mesh)
+                field = fem.FieldContainer([fem.Field(region, dim=dim)])
+                rng = np.random.RandomState(11)
+                field[0].values[:] = rng.randint(-64, 65, size=field[0].values.shape) / 512.0
+                forces = rng.randint(-64, 65, size=field[0].values.size) / 256.0
+                grad = None
+                if withgrad:
+                    solid = fem.SolidBody(fem.NeoHooke(mu=1.0, bulk=2.0), field)
+                    grad = solid.evaluate.gradient(field)
+                fn = "sv_%s.%s" % (name, ext)
+
+                def case(fn=fn, grad=grad, rid=rid, field=field, forces=forces, region=region):
+                    fem.tools.save(region, field, forces=forces, gradient=grad, filename=fn)          # an exception here is felupe's
+                    try:
+                        m = meshio.read(fn)
+                    except Exception as ex:  # noqa: BLE001  the (trusted) reader rejects the file felupe wrote
+                        return {"id": rid, "kind": "save", "nt": True, "readable": False, "error": str(ex)[:160], "uw": [], "ur": [], "fw": [], "fr": []}
+                    return {"id": rid, "kind": "save", "nt": True, "readable": True, "uw": fhex(field[0].values), "ur": fhex(m.point_data["Displacements"]),
+                            "fw": fhex(forces), "fr": fhex(m.point_data["Reaction Force"])}
+
+                out.attempt(rid, case)
+                for f_ in os.listdir("."):
+                    if f_.startswith("sv_"):
+                        os.remove(f_)
 
 
 def main():
